@@ -15,6 +15,7 @@ the property predicate C06_b is evaluated on the implementation's own output.
 """
 import json
 import math
+import re
 
 import numpy as np
 
@@ -565,16 +566,28 @@ def numbers_in_tree(t, acc):
             numbers_in_tree(x, acc)
 
 
-def coq_case(case, out):
+_BIGNUM = re.compile(r"(?<![\w.])\d{19,}(?![\w.])")
+
+
+def hexify(txt):
+    """long decimal literals -> hexadecimal ones (fast to parse); string literals untouched"""
+    parts = txt.split('"')
+    for i in range(0, len(parts), 2):
+        parts[i] = _BIGNUM.sub(lambda m: hex(int(m.group(0))), parts[i])
+    return '"'.join(parts)
+
+
+def coq_feat(f):
+    """one feature; its numbers are scaled by the feature's own power of two (the model never
+    compares numbers of two features)"""
     nums = []
-    for f in out["feats"]:
-        for st in (f["orig"], f["reload"]):
-            if st:
-                nums += decs(st["keys"])
-                for k, vs in st["content"]:
-                    nums += [dec(k)] + decs(vs)
-        numbers_in_tree(f["text"], nums)
-        numbers_in_tree(f["text2"], nums)
+    for st in (f["orig"], f["reload"]):
+        if st:
+            nums += decs(st["keys"])
+            for k, xs in st["content"]:
+                nums += [dec(k)] + decs(xs)
+    numbers_in_tree(f["text"], nums)
+    numbers_in_tree(f["text2"], nums)
     sc = C.Scale(0).fit([x for x in nums if not isinstance(x, str) and x is not None])
 
     def v(t):
@@ -600,12 +613,15 @@ def coq_case(case, out):
     def tbl(rows):
         return C.clist([C.cpair(v(k), C.cstr(s)) for k, s in rows])
 
+    return (f"mkFeat (VStr {C.cstr(f['name'])}) {tbl(f['jk'])} {tbl(f['ps'])} {gl(f['orig'])} {jv(f['text'])} "
+            f"{gl(f['reload'])} {jv(f['text2'])}")
+
+
+def coq_case(case, out):
     def names(ns):
         return C.clist([f"(VStr {C.cstr(str(n))})" for n in ns])
 
-    feats = C.clist([
-        f"mkFeat (VStr {C.cstr(f['name'])}) {tbl(f['jk'])} {tbl(f['ps'])} {gl(f['orig'])} {jv(f['text'])} "
-        f"{gl(f['reload'])} {jv(f['text2'])}" for f in out["feats"]])
+    feats = C.clist([coq_feat(f) for f in out["feats"]])
     load = {"ok": f"(Ok {names(out['reload_names'])})", "assert": "AssertErr", "internal": "InternalErr",
             "not-run": "InternalErr"}[out["load"]]
     return (f"mkCase {C.cbool(case.get('valid', True))} {C.cbool(out['carver'])} {feats} "
@@ -744,10 +760,10 @@ class C06(Prop):
         shards = []
         for part in chunks(list(zip(cases, outs)), 12):
             body = ";\n  ".join(coq_case(c, o) for c, o in part)
-            shards.append(
+            shards.append(hexify(
                 "From AC.Model Require Import Base GroupedList Json CheckC06.\nOpen Scope string_scope.\n"
                 f"Definition cases : list c06case := [\n  {body}\n].\n"
-                "Eval vm_compute in map verdict cases.\n")
+                "Eval vm_compute in map verdict cases.\n"))
         return shards
 
     # ---- evidence / findings --------------------------------------------------------------------
